@@ -6,3 +6,5 @@ for c in "$@"; do
   (cd /verif && ./check $c --tier quick 2>/tmp/try_seed.err | grep -E "VIOLATION|KNOWN" | cut -c1-200; echo "  -> $c exit ${PIPESTATUS[0]}"; tail -2 /tmp/try_seed.err | cut -c1-300)
 done
 cd /repo && git checkout -- . && git status --short | head -3
+# restore the evidence files of the unchanged tree (a run against a seeded change must never be committed as evidence)
+git -C /verif checkout -- evidence 2>/dev/null
